@@ -11,7 +11,7 @@ RES=/verif/selftest/BENIGN_RESULTS.md
 for d in /verif/selftest/benign/*.diff; do
   n=$(basename $d .diff)
   ( cd $WT && git checkout -q -- . && git apply $d ) || { echo "| $n | - | PATCH-DOES-NOT-APPLY |" >> $RES; continue; }
-  for prop in C13 C02; do
+  for prop in $(grep "^$n " /verif/selftest/benign/MAP | cut -d' ' -f2-); do
     out=$(cd /verif && VERIF_REPO=$WT VERIF_OUT=$OUT ./check $prop quick 2>&1); rc=$?
     echo "| $n | $prop | $rc $( [ $rc = 0 ] && echo ok || echo "$out" | head -2 | tr '\n|' ' /' | cut -c1-160 ) |" >> $RES
   done
